@@ -83,6 +83,7 @@ ROLES = {
     "RaftLog::applied_index_upper_bound": lambda cx: _common_callee(cx, ["RaftLog::next_entries_since", "RaftLog::has_next_entries_since"], lambda f: f.body.arg_count == 1 and f.body.local_ty(0) == "u64" and f.name not in ("first_index", "last_index")),
     "Progress::reset_state": lambda cx: _common_callee(cx, ["Progress::become_probe", "Progress::become_replicate", "Progress::become_snapshot"]),
     "UncommittedState::maybe_increase_uncommitted_size": lambda cx: _one({s.fn.key: s.fn for s in cx.prog.writes.get("UncommittedState.uncommitted_size", []) if "stmt" in s.data and s.data["stmt"]["rv"].get("bin", "").startswith("Add")}.values()),
+    "UncommittedState::maybe_reduce_uncommitted_size": lambda cx: _one({s.fn.key: s.fn for s in cx.prog.writes.get("UncommittedState.uncommitted_size", []) if "stmt" in s.data and s.fn.impl_adt and s.fn.impl_adt.endswith("UncommittedState") and "UncommittedState.last_log_tail_index" in cx.prog.readset_short(__import__("raftlint.an", fromlist=["strip_generics"]).strip_generics(s.fn.key))}.values()),
     "MemStorageCore::first_index": lambda cx: _storage_callee(cx, "first_index"),
     "MemStorageCore::last_index": lambda cx: _storage_callee(cx, "last_index"),
     "MemStorageCore::snapshot": lambda cx: _storage_callee(cx, "snapshot"),
